@@ -431,9 +431,9 @@ func runOne(sid int, sched []drv.Step) (evs []drv.Step, hung bool) {
 		case "FClose":
 			s := drv.Num(st["s"])
 			if stream, ok := r.fst[s]; ok {
+				r.emit(drv.Step{"ev": "FClose", "s": s}) // logged before the effect, like FMsg
 				_ = stream.Reset()
 				delete(r.fst, s)
-				r.emit(drv.Step{"ev": "FClose", "s": s})
 			}
 		default:
 			panic("unknown step " + ev)
